@@ -182,5 +182,9 @@ def check(ctx):
                         rule="R-SLOT", edge=is_recal_true, edge_label="edge `is_recal` is true")
     ctx.must_call(TT + "::del_timer", ao("take", W), "timer-thread/del-always-wakes", "del_timer always wakes the timer thread")
     # dependency (seed C08-6): an interval list whose push mis-reports `is_head` is never put on the timer heap
-    ctx.import_rules("C19", r"^swap-then-read-tail|^prev-then-publish|^is-head-compares-tail-and-prev")
+    ctx.import_rules("C19", r"^swap-then-read-tail|^prev-then-publish|^is-head-compares-tail-and-prev|none-only-if-head-is-tail$")
     shared.injected_kinds(ctx)
+    shared.taken_waiter_is_woken(ctx, only=r"timeout_list::TimerThread\.wakeup$")
+    shared.interval_list_claim_rules(ctx)
+    shared.timer_api_forwarding(ctx)
+    shared.timer_handler_rules(ctx)
